@@ -976,7 +976,9 @@ def joined_configs(tier):
             for touch in ('views-before', 'none-before', 'views-before-and-touch-all'):
                 for n in (0, 1, 2):
                     for seq in itertools.product(JOIN_OPS, repeat=n):
-                        if len(order) == 3 and n == 2 and touch != 'views-before':
+                        if n == 2 and (len(order) == 3 or touch == 'none-before'):
+                            continue
+                        if n < 2 and touch == 'views-before-and-touch-all':
                             continue
                         add(order, touch, seq)
                 for seq in [('F_vol@last',), ('T@ms', 'F_vol@last'), ('F_vol@last', 'P@last')]:
